@@ -653,6 +653,10 @@ func runC10(o *opts) error {
 		// termination: families of valid texts of growing size and their invalid twins, every call under a time bound (c10_term.go)
 		return runC10Term(o)
 	}
+	if o.getInt("pagecase", 0) > 0 {
+		// huge and allocatable paging values under an address-space limit (c10_page.go; a child process of the check)
+		return runC10Page(o)
+	}
 	if n := o.getInt("scalecase", 0); n > 0 {
 		// parse-time scaling: chains of alternating and/or connectives; one line per size, flushed at once
 		// (run in a child process under a timeout by the check)
@@ -844,6 +848,14 @@ func runC10(o *opts) error {
 		}
 		emitS("boltmut", c10sMutate(r, toks), storeOnly)
 	}
+	// paging values of extreme magnitude through every scanner (c10_page.go)
+	c10pFilters(o.thorough(), func(stream, filter string) {
+		if stream == "qcurpage" {
+			emitS(stream, filter, []c10Typing{c10CursorTyping})
+		} else {
+			emitS(stream, filter, storeOnly)
+		}
+	})
 	// cursor-provider stream (c10_cursors.go): filters for every scanner x the whole provider matrix
 	for _, f := range c10cFilters() {
 		emitS("qcur", f, []c10Typing{c10CursorTyping})
